@@ -527,11 +527,15 @@ class Parentage(ast.NodeTransformer):
     parent: Optional[ast.AST] = None
 
     def visit(self, node: ast.AST) -> ast.AST:
+        # Iterative traversal: a long chain of operators, attributes or 'elif's
+        # nests deeper than the interpreter's recursion limit allows.
         setattr(node, 'parent', self.parent)
-        self.parent = node
-        node = super().visit(node)
-        if isinstance(node, ast.AST):
-            self.parent = getattr(node, 'parent')
+        todo = [node]
+        while todo:
+            parent = todo.pop()
+            for child in ast.iter_child_nodes(parent):
+                setattr(child, 'parent', parent)
+                todo.append(child)
         return node
 
 def get_parents(node:ast.AST) -> Iterator[ast.AST]:
